@@ -737,6 +737,9 @@ class DefaultControllerPlugin(ControllerPluginBase):
                     self.ctl.exitstatus = LSBInitExitStatuses.GENERIC
                     if e.faultCode == xmlrpc.Faults.BAD_NAME:
                         self.ctl.output('No such process %s' % name)
+                    elif e.faultCode == xmlrpc.Faults.SHUTDOWN_STATE:
+                        self.ctl.output('%s: ERROR (supervisor shutting down)'
+                                        % name)
                     else:
                         raise
                 else:
